@@ -118,7 +118,7 @@ CLAIMED = {
     'C07': dict(
         text='PARTIAL. coq/props/C07.v covers the modelled glue: every segment Aligner.align builds (SU <= 0 < MS) starts and ends on a pair, so all accessors, the pre-order and the chain are total; slice raises exactly when its kept window consists of poppable positions only, resolve_pair raises only through slice, the first resolution step between factory segments is total; '
              'C07_run_full_total: the run model with the executable seeding stage never raises; C07_run_total: Coordinator.program_run (both passes, fragments, filters, join, all modes) never raises for any seeding function naming sorted references, trimmed queries with distinct ids, SU <= 0 < MS; C07_aligner_total: the model of Aligner.align never raises for SU <= 0 < MS, any maps, any seed-peak list, both strands; cigarString is total on valid matchings; the reader is total on every file the writer produces incl. zero records (re-export of C18); regression witnesses for the repaired defects (join IndexError before F8, pair-less joined row before F9) next to theorems that the current code handles them. NOT expressible in a Gallina model: exceptions raised inside numpy/scipy/pandas, memory, signals — exercised by a degenerate-input corpus through the real CLI in every mode, '
-             'parameter corners (incl. thresholds low enough for one-/two-label molecules to get records, -rId/-qId selecting nothing / subsets, molecules without labels so that the reference or query list is empty), read-back of every written file with the project reader, and a crash-search stream over first pass -> fragments -> second pass -> join -> writer -> reader.',
+             'parameter corners (incl. thresholds low enough for one-/two-label molecules to get records, -rId/-qId selecting nothing / subsets, molecules without labels so that the reference or query list is empty; random combinations of option values inside the allowed domain), read-back of every written file with the project reader, and a crash-search stream over first pass -> fragments -> second pass -> join -> writer -> reader.',
         note=NOTE + 'Findings F8, F9, F11 were repaired in /repo (fix: commits) and are listed in known_findings.json with their witnesses (now regression cases in corpus/C07).', design='6 (C07), 10.2', technique='Coq totality proofs for the modelled glue + refutation witnesses + degenerate end-to-end corpus and crash-search oracle'),
 }
 PENDING_REASON = 'check not built yet in this round (planned: DESIGN.md section 6); will be claimed once its model, theorems and correspondence run'
